@@ -16,6 +16,12 @@ COMMON_ASSUMPTIONS = [
     "held = no monitor fired on the executions listed under coverage; nothing is claimed about executions not produced",
 ]
 
+SIM_ASSUMPTIONS = [
+    "SIM engine: tokio current-thread runtime with paused clock; both real connection tasks, all application actors and the in-memory WebSocket (harness/mux/src/memws.rs) run on it",
+    "schedules are those produced by seeded jitter at poll boundaries (a task or a WebSocket poll may be postponed), link capacities 1/2/8/unbounded and flush back-pressure; real thread parallelism is not exercised here",
+    "one total order of wire-tap, hook and API events per run; API events are logged at the client boundary (call before invoking, return after)",
+]
+
 PROPS = {
     "C09": {
         "level": "exploration",
@@ -54,5 +60,46 @@ PROPS = {
             "after a caught panic on an out-of-range argument the chain is discarded, not inspected",
             "io::Read on CowBytes is not an accessor the property constrains: only agreement between the borrowed and owned variant is checked",
         ],
+    },
+    "C02": {
+        "level": "exploration",
+        "jobs": {
+            "quick": [job("sim", "mux", "verif", "c02", 8)],
+            "thorough": [job("sim", "mux", "verif", "c02", 16)],
+        },
+        "required_targets": {"any": ["reads", "eof_seen"]},
+        "assumptions": COMMON_ASSUMPTIONS + SIM_ASSUMPTIONS,
+    },
+    "C03": {
+        "level": "exploration",
+        "jobs": {
+            "quick": [job("sim", "mux", "verif", "c03", 8)],
+            "thorough": [job("sim", "mux", "verif", "c03", 16)],
+        },
+        "required_targets": {"any": ["writer_blocked_at_zero", "ack_raced_write"]},
+        "assumptions": COMMON_ASSUMPTIONS + SIM_ASSUMPTIONS + [
+            "window_out is taken from the wire (peer's Connect rwnd / handshake Acknowledge), credit events from the CreditTaken/FrameConsumed/WindowOverrun hooks",
+        ],
+    },
+    "C04": {
+        "level": "exploration",
+        "jobs": {
+            "quick": [job("sim", "mux", "verif", "c04", 8)],
+            "thorough": [job("sim", "mux", "verif", "c04", 16)],
+        },
+        "required_targets": {"any": ["writer_blocked_at_zero", "isolation_runs"]},
+        "assumptions": COMMON_ASSUMPTIONS + SIM_ASSUMPTIONS + [
+            "'blocks forever' is decided by quiescence in virtual time: the runtime has no runnable task and only the one-hour watchdog timer left while an awaited application operation is pending",
+            "a writer whose peer finished its own direction and then dropped the stream without reading is an absent reader (delays only itself) and is not demanded to complete",
+        ],
+    },
+    "C05": {
+        "level": "exploration",
+        "jobs": {
+            "quick": [job("sim", "mux", "verif", "c05", 8)],
+            "thorough": [job("sim", "mux", "verif", "c05", 16)],
+        },
+        "required_targets": {"any": ["eof_seen", "zero_length_writes", "broken_pipe"]},
+        "assumptions": COMMON_ASSUMPTIONS + SIM_ASSUMPTIONS,
     },
 }
